@@ -13,6 +13,8 @@ from ..util import names_in
 
 def run(ctx, col, tier):
     repo = ctx.repo
+    from ..rules import endpoints as _endpoints
+    _endpoints.run(ctx, col, ('swcgeom.core.tree', 'swcgeom.core.path', 'swcgeom.core.branch', 'swcgeom.core.node', 'swcgeom.core.tree_utils', 'swcgeom.core.tree_utils_impl', 'swcgeom.core.swc_utils.base', 'swcgeom.core.swc_utils.subtree', 'swcgeom.core.swc_utils.normalizer', 'swcgeom.core.swc_utils.io'))
     col.rule("R-MEMO", "nothing computed from the tree is kept on the tree / node / path / branch object: outside construction and setters no "
              "method of these classes stores to self -- copies are deep and topology and coordinates are then edited in place (re-rooting, "
              "concatenation, node setters, transforms), so a kept decomposition or measure describes the tree before the edit; zero expected, "
